@@ -177,7 +177,7 @@ impl Property for C35 {
         "NTS pool: real TCP/TLS on 127.0.0.1 under a paused tokio clock that is kept from auto-advancing while try_spawn runs; the only virtual time that passes is the scripted stall beyond the 5 s key exchange timeout",
     ];
     const QUICK_CASES: u32 = 16_000;
-    const THOROUGH_CASES: u32 = 300_000;
+    const THOROUGH_CASES: u32 = 660_000;
 
     fn strategy(tier: Tier) -> BoxedStrategy<Case> {
         let max_ops = tier.pick(60usize, 120usize);
